@@ -608,8 +608,7 @@ Print Assumptions C18_oci_validate_reference.
 
 (* Resolve, one dependency kept in an OCI repository: an unparsable range fails; an explicit
    version is locked as it is; otherwise the dependency is locked to a highest tag over ALL
-   pages in range — and when no tag is in range it is NOT reported as missing: the lock carries
-   the text of the range (known finding K-C18-1, see C18_oci_resolve_missing_refuted) *)
+   pages in range, or reported missing when no tag is in range *)
 Theorem C18_oci_resolve :
   forall sort : list sversion -> list sversion,
     (forall l, Permutation l (sort l)) ->
@@ -622,21 +621,23 @@ Theorem C18_oci_resolve :
           else
             (exists t, resolve_oci cvalid sat sort pages ver = DLocked t /\
                        best_tag (constraints_check cs) (all_tags pages) t) \/
-            (resolve_oci cvalid sat sort pages ver = DLocked ver /\
+            (resolve_oci cvalid sat sort pages ver = DMissing /\
              none_tag (constraints_check cs) (all_tags pages))
       end.
 Proof. exact resolve_oci_thm. Qed.
 Print Assumptions C18_oci_resolve.
 
-(* K-C18-1: in the OCI branch a dependency whose range no tag satisfies is locked (to the range
-   text) instead of being reported; the index branch reports it (C18_resolve) *)
-Theorem C18_oci_resolve_missing_refuted :
+(* fixed by ac0e5ef: before it, [found] was never reset in the OCI branch and a dependency whose
+   range no tag satisfied was locked to the range text instead of being reported; witness on
+   the unrepaired model, and the repaired model on the same input *)
+Theorem C18_oci_resolve_unrepaired_refuted :
   exists pages ver cs,
     new_constraint ver = Some cs /\ is_valid_version ver = false /\
     none_tag (constraints_check cs) (all_tags pages) /\
-    resolve_oci cvalid sat sisort pages ver = DLocked ver.
-Proof. exact resolve_oci_missing_refuted. Qed.
-Print Assumptions C18_oci_resolve_missing_refuted.
+    resolve_oci_unrepaired cvalid sat sisort pages ver = DLocked ver /\
+    resolve_oci cvalid sat sisort pages ver = DMissing.
+Proof. exact resolve_oci_unrepaired_refuted. Qed.
+Print Assumptions C18_oci_resolve_unrepaired_refuted.
 
 (* the answer does not depend on how the tags are split into pages, on the order inside or
    between pages, or on which (correct) sort is used: two listings with the same tags give
@@ -670,7 +671,7 @@ Example C18_oci_example :
   resolve_oci cvalid sat sisort ex_pages "^1.0.0" = DLocked "1.10.0" /\
   resolve_oci cvalid sat sisort ex_pages "2.x" = DLocked "2.1.0+b1" /\
   resolve_oci cvalid sat sisort ex_pages "1.2.3" = DLocked "1.2.3" /\
-  resolve_oci cvalid sat sisort ex_pages ">=3" = DLocked ">=3" /\
+  resolve_oci cvalid sat sisort ex_pages ">=3" = DMissing /\
   resolve_oci cvalid sat sisort ex_pages "latest" = DFail.
 Proof. exact example_oci. Qed.
 Print Assumptions C18_oci_example.
